@@ -404,6 +404,17 @@ func (w *inotify) readEvents() {
 }
 
 func (w *inotify) handleEvent(inEvent *unix.InotifyEvent, buf *[65536]byte, offset uint32) (Event, bool) {
+	ev, err := w.handleEventLocked(inEvent, buf, offset)
+	// Send the error only after the lock has been released: a send that blocks
+	// because nobody is reading Errors must not keep Add, Remove, WatchList
+	// and Close waiting for the lock.
+	if !w.sendError(err) {
+		return Event{}, false
+	}
+	return ev, true
+}
+
+func (w *inotify) handleEventLocked(inEvent *unix.InotifyEvent, buf *[65536]byte, offset uint32) (Event, error) {
 	w.mu.Lock()
 	defer w.mu.Unlock()
 
@@ -417,7 +428,7 @@ func (w *inotify) handleEvent(inEvent *unix.InotifyEvent, buf *[65536]byte, offs
 	/// state. Not much we can do about it, so just skip. See #616.
 	watch := w.watches.byWd(uint32(inEvent.Wd))
 	if watch == nil {
-		return Event{}, true
+		return Event{}, nil
 	}
 
 	var (
@@ -438,7 +449,7 @@ func (w *inotify) handleEvent(inEvent *unix.InotifyEvent, buf *[65536]byte, offs
 
 	if inEvent.Mask&unix.IN_IGNORED != 0 || inEvent.Mask&unix.IN_UNMOUNT != 0 {
 		w.watches.remove(watch)
-		return Event{}, true
+		return Event{}, nil
 	}
 
 	// inotify will automatically remove the watch on deletes; just need
@@ -449,18 +460,17 @@ func (w *inotify) handleEvent(inEvent *unix.InotifyEvent, buf *[65536]byte, offs
 
 	// We can't really update the state when a watched path is moved; only
 	// IN_MOVE_SELF is sent and not IN_MOVED_{FROM,TO}. So remove the watch.
+	var pending error // Sent by handleEvent() after the lock is released.
 	if inEvent.Mask&unix.IN_MOVE_SELF == unix.IN_MOVE_SELF {
 		if watch.recurse { // Do nothing
-			return Event{}, true
+			return Event{}, nil
 		}
 
 		err := w.remove(watch.path)
 		// EINVAL means the kernel has already dropped the watch (the file was
 		// deleted after it was moved), which is what we wanted to achieve.
 		if err != nil && !errors.Is(err, ErrNonExistentWatch) && !errors.Is(err, unix.EINVAL) {
-			if !w.sendError(err) {
-				return Event{}, false
-			}
+			pending = err
 		}
 	}
 
@@ -469,7 +479,7 @@ func (w *inotify) handleEvent(inEvent *unix.InotifyEvent, buf *[65536]byte, offs
 	if inEvent.Mask&unix.IN_DELETE_SELF != 0 {
 		_, ok := w.watches.path[filepath.Dir(watch.path)]
 		if ok {
-			return Event{}, true
+			return Event{}, pending
 		}
 	}
 
@@ -480,8 +490,8 @@ func (w *inotify) handleEvent(inEvent *unix.InotifyEvent, buf *[65536]byte, offs
 		/// New directory created: set up watch on it.
 		if isDir && ev.Has(Create) {
 			err := w.register(ev.Name, watch.flags, true)
-			if !w.sendError(err) {
-				return Event{}, false
+			if err != nil {
+				pending = err
 			}
 
 			// This was a directory rename, so we need to update all the
@@ -506,7 +516,7 @@ func (w *inotify) handleEvent(inEvent *unix.InotifyEvent, buf *[65536]byte, offs
 		}
 	}
 
-	return ev, true
+	return ev, pending
 }
 
 func (w *inotify) isRecursive(path string) bool {
